@@ -27,7 +27,7 @@ STANDARD = {
     "Duration": list("oj"),
     "AnnualDate": list("G"),
 }
-MALFORMED = ["'abc", "\"abc", "abc\\", "%", "%%", "%%H", "H%", "<", ">", "l<", "ld<uuuu", "lt<HH>>", "HHH", "mmm", "sss", "ddddd", "MMMMM", "yyyyy", "ttt",
+MALFORMED = ["HH''mm", "uuuu''MM''dd", "+HH''mm", "''HH", "\"\"", "HH\"\"mm", "'abc", "\"abc", "abc\\", "%", "%%", "%%H", "H%", "<", ">", "l<", "ld<uuuu", "lt<HH>>", "HHH", "mmm", "sss", "ddddd", "MMMMM", "yyyyy", "ttt",
              "ffffffffff", "HH:HH", "mm mm", "dd dd", "q", "Q", "e", "\x00", "'", "''", "\\", "yyyy gg", "c c", "uuuu yyyy", "g", "HH tt", "h", "\U0001F552",
              "٣", "H" * 300, "'" * 301]
 
@@ -115,7 +115,7 @@ def cultures(rnd: random.Random, n: int) -> list:
     return out
 
 
-def synthetic_culture(rnd: random.Random):
+def synthetic_culture(rnd: random.Random, no_designators: bool = False):
     """A culture built the way applications build their own: a clone of a real one with some format data replaced.
 
     The standard patterns expand to the culture's date/time pattern texts, which may themselves be single letters, malformed
@@ -137,8 +137,15 @@ def synthetic_culture(rnd: random.Random):
         if rnd.random() < 0.6:
             f.long_date_pattern = rnd.choice(dates)
         if rnd.random() < 0.3:
-            f.time_separator = rnd.choice([":", ".", "h", "::", " ", "-"])
-        if rnd.random() < 0.3:
+            f.time_separator = rnd.choice([":", ".", "h", "::", " ", "-", ""])
+        if rnd.random() < 0.2:
+            try:
+                f.date_separator = rnd.choice(["/", ".", "-", "", "//"])
+            except Exception:  # noqa: BLE001 - no setter in this port
+                pass
+        if no_designators:
+            f.am_designator, f.pm_designator = "", ""       # a culture without AM/PM designators (they exist: e.g. 24-hour-only locales)
+        elif rnd.random() < 0.3:
             f.am_designator, f.pm_designator = rnd.choice([("AM", "PM"), ("a", "p"), ("", ""), ("am", "AM"), ("1", "2"), ("x", "")])
     except Exception:  # noqa: BLE001 - a setter refusing a value is its own business
         pass
